@@ -237,6 +237,22 @@ def memcpy_probe(chk):
                      {"record": r.name, "fields": [(fn, am.yaml_type(ft)) for fn, ft in r.fields], "observed": g, "expected": want})
 
 
+def named_union_package():
+    """Named unions that contain further unions (in a vector / map value / record field case), named containers of unions and two
+    names for one union: the class a serializer names for a case must be the class that defines it."""
+    from am import P, N, Vec, Map, Opt, Union, Record, Alias, Protocol, Package
+    defs = [Alias("Na", Union(("i", P("int32")), ("v", Vec(Union(P("float32"), P("string")))))),
+            Alias("Nb", Vec(Union(P("int32"), P("string")))),
+            Alias("Nm", Map(P("string"), Union(P("int32"), P("float32")))),
+            Alias("Nn", Union(None, ("a", P("int32")), ("m", Map(P("string"), Union(P("bool"), P("string")))))),
+            Alias("Nc", Union(P("int32"), P("string"))), Alias("Nd", Union(P("int32"), P("string"))),
+            Record("Rn", [("x", N("Na")), ("y", Union(P("int32"), P("string"))), ("z", N("Nc")), ("w", Opt(N("Nd")))]),
+            Alias("Ne", Union(("r", N("Rn")), ("l", Vec(N("Na")))))]
+    steps = [("na", N("Na")), ("nb", N("Nb")), ("nm", N("Nm")), ("nn", N("Nn")), ("nc", N("Nc")), ("nd", N("Nd")), ("rn", N("Rn")), ("ne", N("Ne")),
+             ("anon", Union(P("int32"), P("string"))), ("sna", am.Stream(N("Na"))), ("vne", Vec(N("Ne")))]
+    return Package("Nun", defs=defs, protocols=[Protocol("Pn", steps)], dirname="nun")
+
+
 def norm(plan, backend):
     """Differences that are representation only: NDJSON has no 'stream' wrapper at step level in some versions; `size` is uint64 on the wire."""
     if isinstance(plan, tuple):
@@ -259,6 +275,7 @@ def main(tier):
     build.yardl_bin()
     sh = [s for s in shapes.shapes(1 if quick else 2, tier) if not shapes.has_vector_of_bool(s)]
     packed = shapes.pack(sh, "Pln", quarantine=False)
+    packed.append((named_union_package(), []))
     with ThreadPoolExecutor(build.NCPU) as ex:
         results = list(ex.map(lambda a: (a[0], extract(a[0], os.path.join(build.scratch(), "c14", a[0].dirname))), packed))
     unparsed = 0
